@@ -386,7 +386,14 @@ impl BudgetEnforcer {
             }
             Event::DocumentStart(_explicit) => {
                 if self.policy == EnforcingPolicy::PerDocument {
+                    // Everything that is counted per document starts from zero again: the
+                    // report, the nesting depth (events skipped during error recovery never
+                    // reach `observe`, so the depth may not be back at zero) and the set of
+                    // anchors defined so far (anchor ids are unique across the whole stream).
                     self.report.reset();
+                    self.depth = 0;
+                    self.containers.clear();
+                    self.defined_anchors.clear();
                 } else {
                     self.report.documents += 1;
                     if self.report.documents > self.budget.max_documents {
